@@ -236,6 +236,20 @@ def run(ctx):
                         mats.append([[v % modulo for v in row] for row in M])
                 else:
                     mats = [[[v % modulo for v in row] for row in unimodular(rng, n, rng.randint(1, 2 * n), 2)] for _ in range(k)]
+            if it % 6 == 2:
+                # modular generators whose REDUCED representative is itself unimodular and has residues above m/2 (the representative the library stores
+                # and must invert is the one in [0, m), not a centred one): products of elementary matrices with non-negative entries
+                n = rng.randint(2, 4)
+                mats = []
+                for _ in range(rng.randint(1, 2)):
+                    M = [[1 if i == j else 0 for j in range(n)] for i in range(n)]
+                    for _s in range(rng.randint(2, 6)):
+                        a, b = rng.sample(range(n), 2)
+                        M[a] = [x + rng.choice([1, 1, 2]) * y for x, y in zip(M[a], M[b])]
+                    mats.append(M)
+                top = max(v for M in mats for row in M for v in row)
+                modulo = rng.randint(top + 1, 2 * top + 1)
+                ctx.count("modular_large_residue_cases")
             if rng.random() < 0.4:
                 # add true inverses of some (computed exactly) so that closed sets occur
                 for M in list(mats):
@@ -271,15 +285,15 @@ def run(ctx):
                             ctx.violation("property_fails", "MatrixGenerator.inv returned a matrix that is not the two-sided inverse", dict(case, index=gi), True)
                 except AssertionError:
                     invs.append("(Err AssertionErr)")
-                    # completeness: an integer matrix with determinant +-1 (modulo 0) must be invertible
-                    if modulo == 0:
+                    # completeness: an integer matrix with determinant +-1 must be invertible (modulo 0: the matrix; modulo m: its reduced representative)
+                    if True:
                         ei = exact_integer_inverse(mats[gi])
                         if ei is not None and max(abs(v) for row in ei for v in row) < 2**62 and max(abs(v) for row in mats[gi] for v in row) < 2**31:
                             ctx.violation("property_fails", "MatrixGenerator.inv rejects an integer matrix whose inverse is an integer matrix (determinant +-1)",
                                           dict(case, index=gi), True)
                 except Exception as ex:  # pylint: disable=broad-except
                     invs.append("(Err " + ERR.get(type(ex).__name__, "RuntimeErr") + ")")
-                    if modulo == 0:
+                    if True:
                         ei = exact_integer_inverse(mats[gi])
                         if ei is not None and max(abs(v) for row in ei for v in row) < 2**62 and max(abs(v) for row in mats[gi] for v in row) < 2**31:
                             ctx.violation("property_fails", f"MatrixGenerator.inv raised {type(ex).__name__} for an integer matrix whose inverse is an integer matrix "
